@@ -271,7 +271,12 @@ def run(ctx: Ctx):
             head = 2 if parts_txt[0].startswith("RSCALE") else 1
             rest = parts_txt[head:]
             rnd.shuffle(rest)
-            alt = ";".join(parts_txt[:head] + rest) + (";" if rnd.random() < 0.5 else "")
+            alt_parts = parts_txt[:head] + rest
+            mode = rnd.random()
+            if mode < 0.5:       # rule part names are case-insensitive (RFC 5545 ABNF strings)
+                alt_parts = [(kv.split("=", 1)[0].lower() if mode < 0.25 else kv.split("=", 1)[0].title()) + "=" + kv.split("=", 1)[1]
+                             for kv in alt_parts]
+            alt = ";".join(alt_parts) + (";" if rnd.random() < 0.5 else "")
             try:
                 back = alpha_rule(vRecur.from_ical(alt))
             except Exception as x:   # noqa: BLE001
